@@ -227,7 +227,12 @@ class DelimSource(Source[Iterable[str]]):
         delim       = self._delim
 
         if split_lines:
+            skip_lf = False
             for text in filter(None,self._source.read()):
+                #a \r\n terminator can straddle two chunks, it is still a single terminator
+                if skip_lf and text[0] == '\n': text = text[1:]
+                skip_lf = text[-1:] == '\r'
+                if not text: continue
                 lines = text.splitlines()
                 if pending:
                     lines[0] = pending + lines[0]
